@@ -4,8 +4,6 @@ From Coq Require Import QArith Qminmax Lqa Sorted.
 Local Open Scope Z_scope.
 
 (* ------------------------------------------------------------------ interface lemmas *)
-Lemma frag_progress num total : progress_remaining num total = progress num total.
-Proof. reflexivity. Qed.
 
 Lemma frag_setup reset num ep total : setup_counters reset num ep total = setup reset num ep total.
 Proof. unfold setup_counters, setup. destruct reset; reflexivity. Qed.
@@ -62,6 +60,34 @@ Proof.
   assert (inject_Z num / inject_Z total <= 1)%Q.
   { apply Qle_shift_div_r; [exact Hp|]. lra. }
   lra.
+Qed.
+
+(* the same facts for the REGENERATED expression, through a rational equation (so that an algebraically
+   equivalent rewrite of the source inside max(0.0, .) still checks, while a semantic change breaks it) *)
+Lemma qmax0_eq x y : (x == y)%Q -> (Qmax 0 x == Qmax 0 y)%Q.
+Proof.
+  intros E. destruct (Q.max_spec 0 x) as [[H1 E1]|[H1 E1]]; destruct (Q.max_spec 0 y) as [[H2 E2]|[H2 E2]];
+    rewrite E1, E2; lra.
+Qed.
+
+Lemma frag_progress_eq num total : 0 < total -> (progress_remaining num total == progress num total)%Q.
+Proof.
+  intros Ht. pose proof (inject_pos total Ht) as Hp.
+  unfold progress_remaining, progress. apply qmax0_eq. field. intros H0. rewrite H0 in Hp. discriminate.
+Qed.
+
+Lemma frag_progress_range num total : 0 < total -> 0 <= num -> (0 <= progress_remaining num total <= 1)%Q.
+Proof. intros Ht Hn. rewrite (frag_progress_eq num total Ht). apply progress_range; assumption. Qed.
+
+Lemma frag_progress_monotone num num' total : 0 < total -> num <= num' ->
+  (progress_remaining num' total <= progress_remaining num total)%Q.
+Proof. intros Ht Hn. rewrite (frag_progress_eq num total Ht), (frag_progress_eq num' total Ht). apply progress_monotone; assumption. Qed.
+
+Lemma frag_progress_value num total : 0 < total ->
+  (num <= total -> (progress_remaining num total == 1 - inject_Z num / inject_Z total)%Q) /\
+  (total <= num -> (progress_remaining num total == 0)%Q).
+Proof.
+  intros Ht. split; intros H; rewrite (frag_progress_eq num total Ht); [apply progress_value|apply progress_exhausted]; assumption.
 Qed.
 
 (* ------------------------------------------------------------------ collect *)
